@@ -75,7 +75,7 @@ func runC17(e *core.Env) error {
 	addU64 := func(tok []byte, tag string) {
 		spec := specU64(tok)
 		e.Add(core.Case{Op: "u64 " + core.Hex(tok), Impl: implU64(tok), Spec: spec,
-			PanicOnly: spec == "" && !(len(tok) >= 4 && tok[1] == '0' && tok[2] == 'x'),
+			PanicOnly:  spec == "" && !(len(tok) >= 4 && tok[1] == '0' && tok[2] == 'x'),
 			Nontrivial: len(tok) >= 4 && tok[1] == '0' && tok[2] == 'x', Tags: []string{"u64", tag, "u64-spec:" + strings.SplitN(spec+" ", " ", 2)[0]}})
 	}
 	// destination reused across the whole run for byte strings
